@@ -180,6 +180,9 @@ def deep_issubclass(subcls, cls):
     try:
         return _subclasscheck_registry[get_origin(cls)](cls, subcls)
     except KeyError:
+        # a parametrized Tuple or FrozenSet is not a class; compare its origin
+        if not isinstance(subcls, type):
+            subcls = get_origin(subcls) or subcls
         return issubclass(subcls, cls)
 
 
